@@ -107,7 +107,22 @@ Qed.
    the writer is dropped (async_conc); m = fst (sent ts evs) is the order of the sends.  For every schedule the files
    hold exactly concat m, and when all threads have finished m is an interleaving of the threads' sequences: every
    record exactly once, intact, each thread's records in their order. *)
-Definition C03_async_numbers := async_merge_numbers.
+From Coq Require Import Permutation.
+(* every configuration: the asynchronous system under any schedule ends in the world of the sequential run of the send order *)
+Theorem C03_async_schedule_is_sequential c t0 off ts evs :
+  async_conc c t0 off ts evs = fst (run (sys0 t0 off) (OStart c :: List.map OWrite (fst (sent ts evs)) ++ [OStop])).
+Proof. exact (async_schedule_run c t0 off ts evs). Qed.
+Theorem C03_async_send_order_is_merge : forall evs ts m tf, sent ts evs = (m, tf) -> all_done tf = true -> Merge ts m.
+Proof. exact sent_merge. Qed.
+Theorem C03_async_numbers c crit t0 off ts evs :
+  numacfg c crit ->
+  let m := fst (sent ts evs) in
+  (exists files, reads c (wfs (s_w (async_conc c t0 off ts evs))) files /\ concat files = concat m)
+  /\ (all_done (snd (sent ts evs)) = true -> Merge ts m /\ Permutation m (concat ts)).
+Proof. exact (async_merge_numbers c crit t0 off ts evs). Qed.
+Check C03_async_schedule_is_sequential. Check C03_async_send_order_is_merge.
+Print Assumptions C03_async_schedule_is_sequential.
+Print Assumptions C03_async_send_order_is_merge.
 Definition C03_async_numbersdirect := async_merge_numbersdirect.
 Definition C03_async_timestampsdirect := async_merge_timestampsdirect.
 Definition C03_async_timestamps := async_merge_timestamps.
